@@ -255,7 +255,13 @@ def _build(rng, n, kind, size, chunk, point, release, sib):
     elif sibs:
         client += [["trigger", "sib"], ["settle"]]
     total = size_eff + 40000 + 100
-    if release == "credit":
+    if release == "credit" and rng.random() < 0.4:
+        # the credit and, in the same segment right behind it, a PRIORITY frame for the stream (a client re-weighting the download it has
+        # just resumed): credit is credit
+        truth["prio_after_credit"] = True
+        client += [["react", "credit_only", sid, total], ["react", "credit_only", 0, total],
+                   ["feed", fb.window_update(sid, total) + fb.window_update(0, total) + fb.priority(sid, dep=0, weight=rng.randrange(256))]]
+    elif release == "credit":
         client += [["react", "window_update", sid, total], ["react", "window_update", 0, total]]
     elif release == "settings_grow":
         client += [["react", "settings", {"4": total}], ["react", "window_update", 0, total]]
